@@ -163,3 +163,26 @@ Theorem C16_tcp_fragment_small : forall data draws,
   (1 <= length data <= 2)%nat -> fragment_plan data draws = [data].
 Proof. exact tcp_fragment_small. Qed.
 Print Assumptions C16_tcp_fragment_small.
+
+(* UDP server: the nonce pattern of an emitted datagram is a function of the configuration only, not of the path
+   by which the cipher block that encrypts it was obtained (discovered for the open request, block of an existing
+   session, discovered for a datagram that did not open a session: rebinding / unknown session id).  For every
+   configuration and every history of authenticated incoming datagrams, every datagram the server emits carries
+   exactly the configured pattern, with applyToAllUDPPacket the pattern is applied to it, and every incoming
+   datagram is answered with the datagrams it calls for *)
+Theorem C16_udp_pattern_independent_of_block_origin : forall tp hist,
+  Forall2 (fun ev ds =>
+             Forall (fun d => dg_pattern d = server_nonce_cfg tp /\
+                              (forall np, server_nonce_cfg tp = Some np -> getB (np_all_udp np) = true ->
+                                          dg_patterned d = true)) ds /\
+             (length ds = ev_out ev \/ length ds = 1%nat))
+          hist (srv_run tp true srv_empty hist).
+Proof. exact udp_pattern_independent_of_block_origin. Qed.
+Print Assumptions C16_udp_pattern_independent_of_block_origin.
+
+(* whatever the path, the first datagram encrypted with a newly discovered block gets the pattern (also when
+   applyToAllUDPPacket is false or unset) *)
+Theorem C16_udp_first_datagram_patterned : forall tp path np,
+  server_nonce_cfg tp = Some np -> dg_patterned (fst (emit_one path (discover tp true path))) = true.
+Proof. exact udp_first_datagram_patterned. Qed.
+Print Assumptions C16_udp_first_datagram_patterned.
